@@ -44,7 +44,7 @@ inductive Val where
 /-! ### The predeclared custom types of the harness (mirrored exactly; see harness/types.go)
 
   0 `main.Upper`   string kind; `UnmarshalFlag` rejects values starting with '!' ("bang: "+v),
-                   otherwise stores the ASCII upper-casing; `MarshalFlag` returns "U:"+value.
+                   otherwise stores the ASCII upper-casing; `MarshalFlag` returns the ASCII lower-casing.
   1 `main.Vstr`    string kind; `IsValidValue` rejects values starting with '~'
                    ("vstr: bad value "+v); otherwise plain string conversion.
   2 `main.Color`   string kind; `Complete(m)` offers red, green, blue, grey with prefix m.
@@ -201,7 +201,7 @@ def convertFailState (t : Ty) (cur : Val) : Val :=
 def fmtBase (b : Int) : Nat := if 2 ≤ b && b ≤ 36 then b.toNat else 10
 
 def svalToString (E : Env) (tag : List (Bytes × Bytes)) : Sc → SVal → Except Bytes Bytes
-  | .custom 0, .str b => .ok (B "U:" ++ b)
+  | .custom 0, .str b => .ok (b.map lowerByte)
   | .dur, .int v => .ok (E.fmtDuration v)
   | _, .str b => .ok b
   | _, .bool b => .ok (if b then B "true" else B "false")
